@@ -159,6 +159,19 @@ impl<'ast> ShallowRecord<'ast> {
         Ok(())
     }
 
+    /// Checks if a field is defined (without annotation) as a variable which is the name of a
+    /// static field of this record. As records are recursive, such a variable refers to the
+    /// latter field, and not to a variable of the same name in the outer environment.
+    fn is_defined_as_sibling(&self, field: &ResolvedField<'ast>) -> bool {
+        match field.defs.as_slice() {
+            [def] if field.resolved.is_empty() => matches!(
+                def.value.as_ref().map(|value| &value.node),
+                Some(Node::Var(id)) if self.stat_fields.keys().any(|key| key.ident() == id.ident())
+            ),
+            _ => false,
+        }
+    }
+
     /// Checks a record with only static fields against a type.
     ///
     /// # Preconditions
@@ -228,6 +241,19 @@ impl<'ast> ShallowRecord<'ast> {
                     Some(&ctxt.outer.type_env),
                     Some(state.resolver),
                 );
+
+                // The apparent type of a field defined as a variable is looked up in the outer
+                // environment. But the record is recursive: if this variable is the name of a
+                // field of the record, it refers to this field, which shadows any variable of
+                // the same name in the outer environment, and the type of the latter must not be
+                // used. We fall back to case 2. below (a fresh unification variable, unified
+                // later with the actual type of the field).
+                let uty_apprt = match uty_apprt {
+                    ApparentType::FromEnv(_) if self.is_defined_as_sibling(field) => {
+                        ApparentType::default()
+                    }
+                    uty_apprt => uty_apprt,
+                };
 
                 // `Approximated` corresponds to the case where the type isn't obvious (annotation
                 // or constant), and thus to case 2. above
